@@ -423,11 +423,13 @@ title: %[2]s %[1]s
 		buffer.WriteString("\n")
 	}
 
-	slices.SortFunc(builder.Options, func(optionA, optionB ast.Option) int {
+	// the options are shared with the builders of the context: a copy is sorted
+	options := slices.Clone(builder.Options)
+	slices.SortFunc(options, func(optionA, optionB ast.Option) int {
 		return strings.Compare(optionA.Name, optionB.Name)
 	})
 
-	for _, option := range builder.Options {
+	for _, option := range options {
 		buffer.WriteString(fmt.Sprintf("### %[2]s %[1]s\n\n", jenny.Formatter.OptionName(option), jenny.methodBadge()))
 
 		if len(option.Comments) != 0 {
